@@ -156,7 +156,12 @@ pub fn serve(raw: UnixStream, s: SrvCfg, acc_key: Vec<u8>, rawlog: Arc<Mutex<Vec
                                         Act::Send(b) => { if !write_all(&mut tls, b) { break; } }
                                         Act::Pause(ms) => std::thread::sleep(Duration::from_millis(*ms)),
                                         Act::CloseNotify => { let _ = tls.shutdown(); }
-                                        Act::Close => { return log; }
+                                        Act::Close => {
+                                            // what the client wrote meanwhile is still in the socket: take it in before closing
+                                            tls.get_ref().inner.set_read_timeout(Some(Duration::from_millis(80))).ok();
+                                            loop { match read_tpkt(&mut tls) { Some(f) => log.frames.push(f), None => break } }
+                                            return log;
+                                        }
                                     }
                                 }
                             }
